@@ -1,6 +1,6 @@
 (* Check/IoCheck.v -- correspondence and oracles for C01-C04 (TextGrid text I/O). *)
 From Coq Require Import String.
-From PraatIO Require Export Check.Common IO.IoModel IO.PrepSpec IO.DupNames IO.CodecProofs IO.ShortFileProofs IO.LongFileProofs.
+From PraatIO Require Export Check.Common IO.IoModel IO.PrepSpec IO.DupNames IO.CodecProofs IO.ShortFileProofs IO.LongFileProofs IO.JsonDict.
 Open Scope Z_scope.
 
 (* as the source stands: point marks are un-doubled by the long-form reader *)
@@ -231,7 +231,10 @@ Inductive IOcase :=
    (what follows a tier / entry index, the two indentations, what follows numbers / strings), the data
    it encodes and the text as the reader sees it: only used to evaluate the hypothesis of the
    whole-file theorem C03_long_family_file on the files actually generated *)
-| LongStyledC (close_t close_e ind_t ind_e trn trs : text) (tab : numtab) (g : dtg) (data : text).
+| LongStyledC (close_t close_e ind_t ind_e trn trs : text) (tab : numtab) (g : dtg) (data : text)
+(* the dictionary conversions behind the plain json format: what _downconvertDictionaryForJson returned for g
+   and what _upconvertDictionaryFromJson returned for that *)
+| JsonConvC (g : dtg) (down : jtg) (up : dtg).
 
 Fixpoint canon_lookup (tab : list (text * text)) (k : text) : text :=
   match tab with
@@ -253,6 +256,12 @@ Definition IOcorr (c : IOcase) : bool :=
   | RefRead _ _ _ => true
   | RefSave lg b mn mx th tab g out => res_eqb text_eqb (save_text lg b mn mx th tab g) out
   | LongStyledC _ _ _ _ _ _ _ _ _ => true
+  | JsonConvC g down up =>
+      let d := json_down g in
+      (jg_start d =? jg_start down) && (jg_end d =? jg_end down)
+      && list_eqb (fun a b => text_eqb (fst a) (fst b) && Bool.eqb (j_isint (snd a)) (j_isint (snd b))
+                              && list_eqb dentry_eqb (j_ents (snd a)) (j_ents (snd b))) (jg_tiers d) (jg_tiers down)
+      && dtg_eqb (json_up down) up
   | DupNames m names out => res_eqb (list_eqb text_eqb) (open_names m names []) out
   | ParseLongM data floats iofs tab out =>
       res_eqb rtg_eqb (do g <- parse_long_chk (fun t => existsb (text_eqb t) floats) (fun t => existsb (text_eqb t) iofs)
